@@ -68,6 +68,7 @@ func main() {
 	}
 	hx.InitIO()
 	run := evid.NewRun(prop, tier, seed, c.level)
+	mon.CurrentRun = run
 	c.fn(run)
 	os.Exit(run.Finish())
 }
